@@ -4,6 +4,7 @@
 import Amoco.Props.C04
 import Amoco.Props.C11
 import Amoco.Props.C03
+import Amoco.Proofs.LebOperand
 
 namespace Amoco.Dis.Props05
 
@@ -107,3 +108,66 @@ theorem fixed_spec_ignores_tail (s : Spec.Spec) (b t : List Nat) (be : Bool)
   Spec.Props.decode_reads_prefix s b t be hfix hlen
 
 end Amoco.Dis.Props05
+
+/-! ### The hook premise for LEB128 operands (dwarf, wasm)
+
+`index_adds_no_tail_dependence` needs, per specification, that the outcome of `ispec.decode` — hence
+of the hook — is the same on two inputs that agree on the consumed bytes.  For the variable-length
+specifications of the DWARF and WebAssembly decoders the tail is parsed by the LEB128 operand helper
+(`_leb128` / `_leb`, model `Leb128.lebOperand`, tied to the real helpers by correspondence on every
+run).  For that helper the premise is a theorem: an accepted operand is determined by the bytes it
+consumes, whatever follows them, and no proper truncation of those bytes is accepted. -/
+
+namespace Amoco.Leb128.Props05
+
+open Amoco.Leb128
+
+/-- An accepted LEB128 operand consumes at least one byte and only bytes that were supplied. -/
+theorem leb_operand_bounds (signed : Bool) (data : List UInt8) (off : Nat) (v : Int) (n : Nat)
+    (h : lebOperand signed data off = some (v, n)) : 1 ≤ n ∧ off + n ≤ data.length := by
+  rw [lebOperand_eq] at h
+  have := lebOpL_bounds signed _ v n h
+  rw [List.length_drop] at this
+  omega
+
+/-- **Determined by the consumed bytes.** If the helper accepts `(v, n)` at `off`, it returns the
+    same value and length on the consumed bytes followed by *any* other tail (in particular by
+    nothing: decoding exactly the consumed bytes). -/
+theorem leb_operand_ignores_tail (signed : Bool) (data : List UInt8) (off : Nat) (v : Int) (n : Nat)
+    (h : lebOperand signed data off = some (v, n)) (t : List UInt8) :
+    lebOperand signed (data.take (off + n) ++ t) off = some (v, n) := by
+  have hb := leb_operand_bounds signed data off v n h
+  rw [lebOperand_eq] at h ⊢
+  have := lebOpL_take_append signed _ v n h t
+  have e : (data.take (off + n) ++ t).drop off = (data.drop off).take n ++ t := by
+    rw [List.drop_append_of_le_length (by rw [List.length_take]; omega), List.drop_take]
+    congr 2; omega
+  rw [e]; exact this
+
+/-- **No truncation is accepted.** Every input that ends strictly inside the operand is rejected
+    (the instruction is not reported with fewer bytes than it needs). -/
+theorem leb_operand_truncation_rejected (signed : Bool) (data : List UInt8) (off : Nat) (v : Int) (n : Nat)
+    (h : lebOperand signed data off = some (v, n)) (k : Nat) (hk : k < n) :
+    lebOperand signed (data.take (off + k)) off = none := by
+  rw [lebOperand_eq] at h ⊢
+  have := lebOpL_truncated signed _ v n h k hk
+  have e : (data.take (off + k)).drop off = (data.drop off).take k := by
+    rw [List.drop_take]; congr 1; omega
+  rw [e]; exact this
+
+/-- the prefix of the data before `off` is irrelevant as well: only `data[off : off+n]` matters. -/
+theorem leb_operand_depends_on_consumed (signed : Bool) (d1 d2 : List UInt8) (o1 o2 : Nat) (v : Int) (n : Nat)
+    (h : lebOperand signed d1 o1 = some (v, n))
+    (hsame : (d2.drop o2).take n = (d1.drop o1).take n) :
+    lebOperand signed d2 o2 = some (v, n) := by
+  rw [lebOperand_eq] at h ⊢
+  have h1 := lebOpL_take_append signed _ v n h ((d2.drop o2).drop n)
+  rw [← hsame, List.take_append_drop] at h1
+  exact h1
+
+/-- non-vacuity: `e5 8e 26` (624485) followed by other bytes, at offset 1; its 2-byte truncation is rejected. -/
+example : lebOperand false [0x10, 0xe5, 0x8e, 0x26, 0x99] 1 = some (624485, 3) ∧
+          lebOperand false [0x10, 0xe5, 0x8e] 1 = none ∧
+          lebOperand true [0x7f] 0 = some (-1, 1) := by decide
+
+end Amoco.Leb128.Props05
